@@ -109,6 +109,7 @@ def main(argv=None):
     args = ap.parse_args(argv)
     t0 = time.time()
     seed = int(os.environ.get('VERIF_SEED', '1') or 1)
+    os.environ['VERIF_CACHE_ROLE'] = '%s-parent' % args.prop.upper()
     key = env.setup(prune=False)
     try:
         from . import build
@@ -205,8 +206,9 @@ def main(argv=None):
     for i in range(nshards):
         out = os.path.join(work, 'shard%02d' % i)
         log = open(out + '.log', 'w')
+        child_env['VERIF_CACHE_ROLE'] = '%s-shard%02d' % (prop.ID, i)
         p = subprocess.Popen([env.PY, '-u', '-m', 'vlib.shard', modname, args.tier, str(seed), str(i),
-                              str(nshards), str(per[i]), out], cwd=env.VERIF, env=child_env,
+                              str(nshards), str(per[i]), out], cwd=env.VERIF, env=dict(child_env),
                              stdin=subprocess.DEVNULL, stdout=log, stderr=subprocess.STDOUT)
         procs.append((i, p, out, log))
     merged = {'evaluations': 0, 'ok': 0, 'failed_cases': 0, 'discards': {}, 'labels': {}, 'samples': [],
